@@ -369,6 +369,9 @@ def sort_value(x):
     return x
 
 
+_JSON_ROT = [0]
+
+
 def do_ser(root, f, o, md):
     import json
 
@@ -378,7 +381,13 @@ def do_ser(root, f, o, md):
     if f == "Dict":
         return root.as_dict(mashumaro_dialect=md, serialization_options=o)
     if f == "Json":
-        return json.loads(root.to_json(serialization_options=o))
+        # compact, indented and bytes spellings in rotation: the options must reach all of them (seeded change C16-9)
+        _JSON_ROT[0] += 1
+        if _JSON_ROT[0] % 3 == 0:
+            return json.loads(root.to_json(serialization_options=o))
+        if _JSON_ROT[0] % 3 == 1:
+            return json.loads(root.to_json(indent=True, serialization_options=o))
+        return json.loads(root.to_jsonb(indent=True, serialization_options=o))
     if f == "Msgpack":
         return msgpack.unpackb(root.to_msgpck(serialization_options=o), raw=False)
     return sort_value(yaml.safe_load(root.to_yaml(mashumaro_dialect=md, serialization_options=o)))
